@@ -421,7 +421,50 @@ def check_queries(ctx: Ctx) -> None:
         ctx.note(f"15.5 lazy exception {cn}.{m}: {why}")
 
 
+def check_update_source_untouched(ctx: Ctx) -> None:
+    """15.7: updating a grammar from another one never edits the other one: what `_update` removes from is a deep copy."""
+    from gv.cfg import cfg_of
+
+    for rel, cname_ in ((JG, "JSONGrammar"), (PG, "PydanticGrammar"), (SG, "SimpleGrammar")):
+        cls = ctx.index.cls(rel, cname_)
+        f = cls.methods.get("_update")
+        if f is None:
+            continue
+        con = cname(rel, cname_, "_update")
+        src = [a.arg for a in f.args.args if a.arg != "self"][0]
+        cfg = cfg_of(f)
+        edits = []
+        for st in stmts_of(f):
+            if isinstance(st, ast.Delete):
+                edits += [(st, t.value) for t in st.targets if isinstance(t, ast.Subscript)]
+            elif isinstance(st, ast.Expr) and isinstance(st.value, ast.Call) and isinstance(st.value.func, ast.Attribute) and st.value.func.attr in ("pop", "clear", "remove", "discard", "popitem") :
+                edits.append((st, st.value.func.value))
+        n = 0
+        for st, tgt in edits:
+            root = tgt
+            while isinstance(root, (ast.Attribute, ast.Subscript)):
+                root = root.value
+            if not isinstance(root, ast.Name) or root.id == "self":
+                continue
+            if root.id == src:
+                n += 1
+                ctx.ob("15.7-source-untouched", con, False, f"`{norm_stmt(st, 60)}` edits the grammar given as argument: `g.update(other, excluded_names=...)` must leave `other` as it was", node=st)
+                continue
+            defs_ = {cfg.node_of(d): d for d in stmts_of(f) if isinstance(d, ast.Assign) and any(dotted(t) == root.id for t in d.targets) and cfg.has(d)}
+            here = cfg.node_of(st)
+            reaching = [d for n_, d in defs_.items() if cfg.path(n_, here, avoid=set(defs_) - {n_}) is not None]
+            from_src = [d for d in reaching if src in {x.id for x in ast.walk(d.value) if isinstance(x, ast.Name)}]
+            if not from_src:
+                continue
+            n += 1
+            ok = all(isinstance(d.value, ast.Call) and dotted(d.value.func) in ("deepcopy", "copy.deepcopy") for d in from_src)
+            ctx.ob("15.7-source-untouched", con, ok, f"`{norm_stmt(st, 50)}` removes names from `{root.id}`, which is taken from the other grammar without a deep copy ({', '.join(norm_stmt(d.value, 40) for d in from_src)}): a shallow copy shares the tables of properties, so the OTHER grammar loses the excluded names while its required names and defaults still list them", node=st, stmt=f"{root.id} edited in _update is a deep copy of the source's")
+        if cname_ == "JSONGrammar":
+            ctx.ob("15.7-source-untouched", con, n >= 1, "the exclusion of names in JSONGrammar._update was not recognised", node=f, stmt="exclusion recognised")
+
+
 def run(ctx: Ctx) -> None:
+    check_update_source_untouched(ctx)
     check_json(ctx)
     check_pydantic(ctx)
     check_base(ctx)
@@ -431,6 +474,8 @@ def run(ctx: Ctx) -> None:
 
 # ---------------------------------------------------------------------------
 WITNESSES = [
+    {"name": "update-excludes-on-a-shallow-copy", "file": JG, "old": "            schema_builder = deepcopy(grammar.__schema_builder)", "new": "            schema_builder = copy(grammar.__schema_builder)", "expect": "15.7"},
+    {"name": "update-excludes-on-the-source", "file": JG, "old": "            schema_builder = deepcopy(grammar.__schema_builder)", "new": "            schema_builder = grammar.__schema_builder", "expect": "15.7"},
     {"name": "delitem-no-invalidate", "file": JG, "old": "        del self.__schema_builder[name]\n        self.__init_dependencies()", "new": "        del self.__schema_builder[name]", "expect": "15.1"},
     {"name": "rename-no-invalidate", "file": JG, "old": "            self.__schema_builder.properties.pop(current_name)\n        )\n        self.__init_dependencies()", "new": "            self.__schema_builder.properties.pop(current_name)\n        )", "expect": "15.1"},
     {"name": "restrict-invalidate-inside-loop-only", "file": JG, "old": "        for element_name in self.__schema_builder.keys() - names:\n            del self.__schema_builder[element_name]\n        self.__init_dependencies()", "new": "        for element_name in self.__schema_builder.keys() - names:\n            self.__init_dependencies()\n            del self.__schema_builder[element_name]", "expect": "15.1"},
